@@ -642,7 +642,12 @@ impl CpcSketch {
             window_offset: determine_correct_offset(lg_k, num_coupons),
             sliding_window: uncompressed.window,
             merge_flag: !has_hip,
-            kxp,
+            // an empty image carries no HIP registers: kxp starts at k, as in a new sketch
+            kxp: if num_coupons == 0 {
+                (1u64 << lg_k) as f64
+            } else {
+                kxp
+            },
             hip_est_accum,
         })
     }
